@@ -334,7 +334,7 @@ def fanout_complete(ctx):
                           ("the iterator is restricted by " + ",".join(adapt) if adapt else "the send inside the loop is not awaited"))
 
 
-@rule("C04.ROOT-BOOKKEEPING", ["C04"], """in the one-shot relay an Ok{Build|Service} addressed to Root removes the target from the corresponding set of
+@rule("C04.ROOT-BOOKKEEPING", ["C04", "C08"], """in the one-shot relay an Ok{Build|Service} addressed to Root removes the target from the corresponding set of
       unavailable roots, and the relay loop ends exactly when both sets are empty or a termination was received""", "K1", floor=3)
 def root_bookkeeping(ctx):
     r = ctx.r
